@@ -171,7 +171,25 @@ def for_facts(ctx, fornode):
     if r is None:
         return []
     v, lo, hi, incl, _ = r
-    return [norm_cmp("<=", lo, v), norm_cmp("<=" if incl else "<", v, hi)]
+    out = []
+    for l in _max_parts(lo):
+        out.append(norm_cmp("<=", l, v))
+    for h in _min_parts(hi):
+        out.append(norm_cmp("<=" if incl else "<", v, h))
+    return out
+
+
+def _min_parts(t):
+    """hi = min(a, b)  =>  v < a and v < b"""
+    if t[0] == "call" and str(t[1]).endswith("::min") and len(t) == 4:
+        return _min_parts(t[2]) + _min_parts(t[3])
+    return [t]
+
+
+def _max_parts(t):
+    if t[0] == "call" and str(t[1]).endswith("::max") and len(t) == 4:
+        return _max_parts(t[2]) + _max_parts(t[3])
+    return [t]
 
 
 def term_vars(t, acc=None):
